@@ -544,6 +544,7 @@ class ITerm2Image(GraphicsImage, metaclass=ITerm2ImageMeta):
         mix: bool = False,
         **kwargs,
     ):
+        self.is_supported()  # Ensures `_TERM` goes with the current support status
         if not mix and self._TERM == "wezterm":
             r_width, r_height = self.rendered_size
             lines = max(fmt[-1], r_height)
@@ -615,6 +616,7 @@ class ITerm2Image(GraphicsImage, metaclass=ITerm2ImageMeta):
         render_method = (method or self._render_method).lower()
 
         # Workarounds
+        self.is_supported()  # Ensures `_TERM` goes with the current support status
         is_on_konsole = self._TERM == "konsole"
         is_on_wezterm = self._TERM == "wezterm"
         cursor_right = CURSOR_FORWARD % r_width
